@@ -152,6 +152,40 @@ theorem map_image (k : IntKind) (kvs : List (Str × Int)) (hs : KeysSorted kvs) 
     fromMap (fromInt k) kvs = .map (kvs.map (fun kv => (kv.1, .int kv.2))) := by
   rw [fromMap_sorted _ _ hs]; rfl
 
+/-- list round trip for ANY element type whose own conversion round-trips on the elements present — so lists of lists, lists
+    of maps, … at any depth round-trip, by applying this theorem to itself -/
+theorem vec_roundtrip_any {β} (into : β → Value) (elem : Value → Except Err β) (xs : List β)
+    (h : ∀ b ∈ xs, elem (into b) = .ok b) : tryVec elem (fromVec into xs) = .ok xs := by
+  simp only [tryVec, fromVec]
+  induction xs with
+  | nil => simp [collect]
+  | cons x xs ih =>
+    have hx := h x (by simp)
+    have := ih (fun b hb => h b (by simp [hb]))
+    simp [collect, hx, this]
+
+/-- lists of lists of integers -/
+theorem nested_vec_roundtrip (k : IntKind) (nss : List (List Int)) (h : ∀ ns ∈ nss, ∀ n ∈ ns, k.inRange n = true) :
+    tryVec (tryVec (tryInt k)) (fromVec (fromVec (fromInt k)) nss) = .ok nss := by
+  apply vec_roundtrip_any
+  intro ns hns
+  apply vec_roundtrip_any
+  intro n hn
+  simp [tryInt, fromInt, h ns hns n hn]
+
+/-- map round trip for any element type (keys distinct and in order, as a `BTreeMap` hands them over) -/
+theorem map_roundtrip_any {β} (into : β → Value) (elem : Value → Except Err β) (kvs : List (Str × β)) (hs : KeysSorted kvs)
+    (h : ∀ kv ∈ kvs, elem (into kv.2) = .ok kv.2) : tryMap elem (fromMap into kvs) = .ok kvs := by
+  rw [fromMap_sorted _ _ hs]
+  simp only [tryMap]
+  induction kvs with
+  | nil => simp [collect]
+  | cons kv rest ih =>
+    have hs' : KeysSorted rest := by unfold KeysSorted at *; exact (List.pairwise_cons.mp hs).2
+    have hrest := ih hs' (fun x hx => h x (by simp [hx]))
+    have h1 := h kv (by simp)
+    simp only [List.map_cons, collect, h1, hrest]
+
 /-! non-vacuity -/
 example : KeysSorted [(" a".toList, (1 : Int)), ("A".toList, 2), ("a".toList, 3), ("a ".toList, 4)] := by
   unfold KeysSorted; decide
